@@ -11,6 +11,6 @@ def run(rep, tier, seed):
                      'lane-kernel call site must present operands whose representation typestate satisfies the callee contract '
                      '(canonical-operand adders may not receive products or sums, which are arbitrary 64-bit representations)')
     matcheck.run_family(rep, 'avx512', PAT, 7, 'C14')
-    n = kcheck.prove_dot8(rep, 'avx512', 8, seed=seed)
-    rep.floor('8-bit sparse kernel (kernel mode)', n, 1)
+    n = kcheck.prove_field_contracts(rep, 'avx512', 8, seed=seed)     # the lane kernels the matrix kernels are built from, incl. the 8-bit sparse kernel
+    rep.floor('lane kernels proved (kernel mode)', n, 14)
     rep.trusted = ['clang 14 lowering', 'glv abstract interpreter', 'lane-kernel contracts (proved by C11 kernel mode)']
